@@ -111,6 +111,9 @@ var groupings = []grouping{
 	// exactly ONE dimension whose value contains the id's delimiters, next to a group that really has two dimensions (the
 	// attribution tag is excluded, so that the first group has a single dimension)
 	{name: "starOneDim", clause: `|groupBy(*).exclude('who')`, tags: [2]map[string]string{{"a": "x,b=y"}, {"a": "x", "b": "y"}}, meas: [2]string{"m", "m"}},
+	// a tag KEY that contains the id's delimiters (round-5 seed C06-r5m2: keys written unescaped): {"a=x,b": "y"} must not share
+	// an id with {"a": "x", "b": "y"}
+	{name: "keyDelims", clause: `|groupBy(*).exclude('who')`, tags: [2]map[string]string{{"a=x,b": "y"}, {"a": "x", "b": "y"}}, meas: [2]string{"m", "m"}},
 	{name: "mixedKinds", clause: `.groupBy('a')`, tags: [2]map[string]string{{"a": "g"}, {"a": "h"}}, meas: [2]string{"m", "m"}, flt1: true},
 	{name: "byMeasurement", clause: `.groupBy('a').groupByMeasurement()`, tags: [2]map[string]string{{"a": "g"}, {"a": "g"}}, meas: [2]string{"m", "n"}},
 }
@@ -394,6 +397,6 @@ func Run(r *rt.Run) error {
 	r.Extra["pipelines"] = names
 	r.Extra["groupings"] = len(groupings)
 	r.Extra["programs"] = len(progs)
-	r.Finish("for each of the grouping-aware pipelines x 8 groupings (plain, tag values with ',', '=', space, backslash, groupBy(*), a varying non-group tag, byMeasurement) x input programs: the real task on group 0 alone, group 1 alone and on time-ordered interleavings of both (all tie orders up to a limit); distinct by (pipeline, grouping, program)", false)
+	r.Finish("for each of the grouping-aware pipelines x the groupings of the table (plain, tag values and tag keys with ',', '=', space, backslash, groupBy(*), a varying non-group tag, byMeasurement) x input programs: the real task on group 0 alone, group 1 alone and on time-ordered interleavings of both (all tie orders up to a limit); distinct by (pipeline, grouping, program)", false)
 	return nil
 }
